@@ -31,7 +31,7 @@ def main():
     # to the model (Props/C15Tie.lean)
     tie_ok = common.prove_tie(chk, 'I18n.Props.C15Tie', TIE_TRANSLATORS,
                               'the definitions regenerated from the current lib/domains.py, lib/gettext.py (parse_header) and lib/check/__init__.py '
-                              '(check_project, check_translator, check_comments, check_mime) are no longer proved equal to Model/Domains.lean / Model/Hdr.lean '
+                              '(check_project, check_translator, check_comments, check_mime, check_headers) are no longer proved equal to Model/Domains.lean / Model/Hdr.lean '
                               '(generated_*_eq_model and their corollaries)')
     problems = ' '.join(chk.lean.problems)
     driver_ok = os.path.exists(common.driver_path()) and not any('untranslatable' in s for s in chk.lean.translation.values()) \
@@ -105,6 +105,7 @@ def main():
             t = c['kind'] == 'pot'
             lines.append(C.headers_line(t, c['entries'])); outs.append(C.impl_headers(t, c['entries']))
         chk.stream('check-headers', lines, outs)
+        chk.stream('check-headers-generated', [l.replace('hdr headers ', 'hdr gheaders ', 1) for l in lines], outs)
         lines, outs, l2, o2, l3, o3 = [], [], [], [], [], []
         for c in sub:
             t = c['kind'] == 'pot'
@@ -202,9 +203,9 @@ def main():
 
 EXPLANATION = (
     'TIE BY TRANSLATION (Props/C15Tie.lean): lib/domains.py (all functions), gettext.parse_header, Checker.check_project, check_translator, check_comments and '
-    'check_mime (with the charset fragment through C20 model functions) are regenerated from the current source on every run and proved equal, for all inputs, to the '
+    'check_mime (with the charset fragment through C20 model functions) and check_headers are regenerated from the current source on every run and proved equal, for all inputs, to the '
     'model definitions the theorems below are about (generated_*_eq_model + the headline theorems restated about the regenerated definitions); the regenerated '
-    'definitions also run against the real code in the *-generated streams. check_headers is not translated yet (correspondence only). '
+    'definitions also run against the real code in the *-generated streams. '
     'Proved for ALL files (Props/C15.lean): header_tags_eq - whenever the header stages return, the set of (tag, extras) the imperative model '
     'of check_comments / check_headers / check_mime / check_dates / check_project / check_translator emits equals Spec.HeaderRules.Reported '
     '(Appendix A, one clause per tag), for any entries, any header text (any lines, multiplicity, order), any comments, PO / POT / MO and every '
